@@ -9,7 +9,7 @@ from . import common
 
 NAME = "U-condtail"
 TOOL = "verus"
-PROPS = ["C01", "C16"]
+PROPS = ["C01", "C16", "C10"]
 RLIMIT = 200
 TRUSTED = ["verus 0.2026.09.13 + z3", "A-isa: LDA / CMP #0 / CPX #0 / CPY #0 make N/Z describe the value loaded or compared; BNE jumps when it is non-zero, BEQ when it is zero; PHA pushes",
            "generate_condition_16bits' contract (U-cond16) and generate_expr's (it returns an operand denoting the expression's value) are assumed (stubs)"]
@@ -119,7 +119,7 @@ HEADER = """fn condition_value_tail(&mut self, condition: &Expr, pos: usize, neg
             final(self).compiler_state == old(self).compiler_state,
             // control reaches `label` exactly when the value is non-zero (negated if asked); a jump pending on entry stays pending
             (res is Ok && res->Ok_0 is None) ==> final(self).gh@.skip == after(old(self).gh@.skip, nonzero(sem(*condition)) != negate, label@), //@ C01:condtail-jumps-iff-nonzero
-            (res is Ok && res->Ok_0 is Some) ==> (immediate_special && final(self).gh@.skip == old(self).gh@.skip && res->Ok_0->Some_0 == (nonzero(sem(*condition)) != negate)), //@ C01:condtail-constant
+            (res is Ok && res->Ok_0 is Some) ==> (immediate_special && final(self).gh@.skip == old(self).gh@.skip && res->Ok_0->Some_0 == (nonzero(sem(*condition)) != negate)), //@ C01,C10:condtail-constant
             res is Ok ==> final(self).gh@.pushed == old(self).gh@.pushed, //@ C01:condtail-nothing-left-on-the-stack
             (res is Ok && final(self).gh@.skip is None) ==> belief_sound(final(self)), //@ C01:condtail-flags-belief-true
 """
